@@ -32,7 +32,7 @@ fn some_lit(d: &Delta, rng: &mut Rng) -> Option<usize> {
 
 /// Apply one random fault; returns None if the chosen fault is not applicable.
 pub fn apply_fault(rng: &mut Rng, basis: &mut Vec<u8>, d: &mut Delta, other_basis: &[u8]) -> Option<Fault> {
-    let which = rng.below(22);
+    let which = rng.below(24);
     let f = |class: &'static str, desc: String| Some(Fault { class, desc });
     match which {
         0 => {
@@ -237,6 +237,38 @@ pub fn apply_fault(rng: &mut Rng, basis: &mut Vec<u8>, d: &mut Delta, other_basi
         20 => {
             basis.clear();
             f("basis-empty", String::new())
+        }
+        22 => {
+            // the same bit flipped in two (or four) checksum bytes a machine word apart: differences that cancel
+            // in a comparison which folds words together instead of OR-ing them
+            let mut c = *d.checksum.as_bytes();
+            let i = rng.below(8) as usize;
+            let bit = 1u8 << rng.below(8);
+            let lanes: &[usize] = match rng.below(4) {
+                0 => &[0, 8],
+                1 => &[0, 16],
+                2 => &[8, 24],
+                _ => &[0, 8, 16, 24],
+            };
+            for l in lanes {
+                c[i + l] ^= bit;
+            }
+            d.checksum = StrongHash::from_bytes(c);
+            f("checksum-cancelling-flips", format!("byte {i} lanes {lanes:?}"))
+        }
+        23 => {
+            // XOR with a mask of period 4, 8 or 16 bytes
+            let mut c = *d.checksum.as_bytes();
+            let period = *rng.pick(&[4usize, 8, 16]);
+            let mask: Vec<u8> = (0..period).map(|_| rng.byte()).collect();
+            if mask.iter().all(|b| *b == 0) {
+                return None;
+            }
+            for (k, b) in c.iter_mut().enumerate() {
+                *b ^= mask[k % period];
+            }
+            d.checksum = StrongHash::from_bytes(c);
+            f("checksum-periodic-mask", format!("period {period}"))
         }
         _ => {
             d.ops.clear();
@@ -467,7 +499,7 @@ fn cli_one(seed: u64, idx: u64, work: &Path, rep: &mut Report) {
     std::fs::write(dir.join("d.delta"), bincode::serialize(&d).unwrap()).unwrap();
     // the output path has a past: a longer stale file, or an earlier patch run (rejected or accepted) that
     // wrote more bytes to the same -o than this one will.  Exit 0 still has to mean "out hashes to checksum".
-    let prior = rng.below(5);
+    let prior = rng.below(6);
     let mut prior_s = "fresh-output";
     if prior == 1 {
         let n = c.source.len() + rng.range(1, 70_000);
@@ -490,7 +522,15 @@ fn cli_one(seed: u64, idx: u64, work: &Path, rep: &mut Report) {
                 }
                 std::fs::write(dir.join("basis0"), &c2.basis).unwrap();
                 std::fs::write(dir.join("d0.delta"), bincode::serialize(&d2).unwrap()).unwrap();
-                let r0 = run_copia(&["patch", "basis0", "d0.delta", "-o", "out"], &dir);
+                if prior == 5 {
+                    // ... or an earlier patch of the longer output that was killed half-way
+                    let k = rng.range(1, 8) as u64;
+                    if crate::c01::run_copia_killed(&["patch", "basis0", "d0.delta", "-o", "out"], &dir, k).is_some() {
+                        prior_s = "earlier-killed-longer-patch-to-same-output";
+                        rep.count("cli_prior_killed_patch_runs", 1);
+                    }
+                }
+                let r0 = if prior == 5 { crate::c01::Run { code: Some(1), signal: None, stdout: String::new(), stderr: String::new() } } else { run_copia(&["patch", "basis0", "d0.delta", "-o", "out"], &dir) };
                 rep.count("cli_prior_patch_runs", 1);
                 if r0.code == Some(0) {
                     let out = std::fs::read(dir.join("out")).unwrap_or_default();
